@@ -30,6 +30,7 @@ func init() {
 			job(pair("c15-rel-k3-any-cap1-batch", sim.RelCfg("", 0, 3, 0, 1, fBld|fBNew|fBRem|fBSet|fReg, oBasic)), pick(tier, 5, 7), 2),
 			job(pair("c15-rel-k4-1p-life", sim.RelCfg("", 0, 4, 1, 8, fBld|fMove|fRet|fReg, oBasic)), pick(tier, 7, 9), 2),
 			job(pair("c15-rel2-k3-events", withL(sim.Rel2Cfg("", 3, 0, 8, fBld|fRel|fRet, oBasic))), pick(tier, 5, 7), 2),
+			job(pair("c15-rel-k3-values", sim.RelCfg("", 0, 3, 0, 8, fBld|fVal|fBNew, oBasic)), pick(tier, 5, 7), 2),
 			job(pair("c15-core-k3-cap1", sim.CoreCfg("", 3, 1, nil, fMove|fBNew|fBExch|fReg|fVal, oBasic)), pick(tier, 5, 7), 2),
 			job(pair("c15-ent-k5-cap1", sim.EntCfg("", 5, 1, fBNew|fBRem, oBasic)), pick(tier, 8, 12), 2),
 		}
